@@ -27,6 +27,35 @@ META = {
  "C16": {"technique": "property-based testing with generated schedules; per-job monotone status rank oracle",
          "text": coop_text("status samples from sampler goroutines, from inside the worker function and after Wait are ordered per job and must never decrease; Processing inside the function; Closed after Wait."), "note": COOP_NOTE},
 }
+META.update({
+ "C04": {"technique": "model-based (differential) property-based testing of the queue types + generated schedules for the worker; native go fuzzing in the thorough tier",
+         "text": "Exploration by property-based testing in two parts: rapid state-machine sequences (enqueue, bursts across segment boundaries, dequeue, purge, values, close; arbitrary int priorities) are applied to internal/queues and to a slice / stably sorted reference model and compared after every step; " + coop_text("dispatch order of a concurrency-1 worker and the started-prefix of a concurrency-n worker are checked against the (priority, arrival) order of certainly-pending jobs.") + " Thorough tier adds a coverage-guided go test -fuzz campaign on the same property.",
+         "note": COOP_NOTE + " Queue part runs on the uninstrumented library."},
+ "C11": {"technique": "property-based testing + fault enumeration: generated programs/schedules/fault plans, every adapter-call crash cut enumerated, recovery episode per cut",
+         "text": "Fault enumeration on top of property-based testing: " + coop_text("a recording adapter logs every Enqueue/DequeueWithAckId/Acknowledge on the episode's total order; the acknowledgement log law (issued id, at most once, after the worker function returned) is checked on every run; each generated case is re-executed deterministically and cut at EVERY adapter-call boundary, the crash law (accepted => processed or still held) is checked at the cut, and a fresh worker on the recovered adapter contents must drain everything, also under a generated fault plan."),
+         "note": COOP_NOTE + " Crash = the episode stops between two adapter calls; the adapter's durable state is its pending and unacknowledged sets."},
+ "C12": {"technique": "property-based testing of an encode/decode round trip against an independent harness-side JSON round trip; bad-entry injection at generated positions",
+         "text": coop_text("11 payload types with generated values (unicode, escapes, 64-bit extremes, NaN/Inf, unencodable values) and IDs go through Add on a recording adapter and a consuming worker and are compared (reflect.DeepEqual) with the harness's own Marshal/Unmarshal into the same type; undecodable entries of five kinds are placed at generated positions among valid stored entries and the valid ones must all run once, in order, with an error offered for the bad ones."),
+         "note": COOP_NOTE},
+ "C13": {"technique": "property-based testing with generated schedules; exactly-once-overall oracle on a shared recording adapter",
+         "text": coop_text("1-3 consumer workers share one recording distributed adapter, notifications are delivered synchronously or by a notifier goroutine, items exist before binding; at rest every item must have been executed exactly once overall and every consumer's Submitted must equal the notifications delivered."),
+         "note": COOP_NOTE},
+ "C14": {"technique": "bounded-exhaustive enumeration of call sequences + random long sequences against a reference state machine (model-based testing)",
+         "text": coop_text("every lifecycle call sequence up to the bound x 12 configuration variants is enumerated on the base schedule and longer sequences are generated with generated schedules; after each call the error value and Status() are compared with the documented state machine, and a probe job submitted at the end must run iff the reference state is Running."),
+         "note": COOP_NOTE + " Exhaustive only for the stated bound and the base schedule."},
+ "C15": {"technique": "property-based testing; validity predicate per dispatch replayed on model populations",
+         "text": coop_text("2-5 queues of all six kinds are bound in generated order to a paused concurrency-1 worker, generated populations are loaded (and extended at settled points), and every dispatch is checked against the strategy's rule on the model's queue lengths (round-robin cursor, max, min among non-empty) and against the head of the chosen queue."),
+         "note": COOP_NOTE + " Runs on the base schedule: the model must know every queue length at every dispatch."},
+ "C17": {"technique": "property-based testing with generated schedules; bounds always + exactness at quiescent points against harness accounting",
+         "text": coop_text("sampler goroutines read NumPending/NumProcessing/Metrics while producers, dispatcher, purges and completions run; every sample must be within its logical bounds, counters monotone, and at every quiescent point the values must equal the harness's own accounting (per-queue pending, worker pending = sum, Submitted, Completed = Successful + Failed = finished invocations)."),
+         "note": COOP_NOTE},
+ "C18": {"technique": "property-based testing with generated schedules and virtual time; exact live-goroutine accounting",
+         "text": coop_text("at every quiescent point idle+busy workers are bounded by the largest configured concurrency, a running idle worker keeps >= 1 idle goroutine, idle workers beyond the minimum are retired after the expiry (virtual clock), the number of live goroutines started by library go statements equals dispatcher + remover + listener + idle + busy, and after Stop it is exactly 0, over generated TunePool sequences and Stop/Restart cycles."),
+         "note": COOP_NOTE},
+ "C19": {"technique": "property-based generation of concurrent client programs executed under the Go race detector with randomized yields",
+         "text": "Exploration: rapid generates multi-goroutine client programs over the whole public API (submissions, handle reads, cancel, purge, lifecycle, introspection); each is executed repeatedly on the real runtime with the race detector, with random yields inserted before library statements to widen the set of interleavings; any report with a library frame is a violation, identified by its (function, access kind) pair.",
+         "note": "Trusted base: Go race detector (happens-before, judges only executions it sees), the perturbation instrumenter. Races are not reproducible deterministically; the replay re-runs the reported program 30 times."},
+})
 NOT_APPLICABLE = {}
 ENGINES = [
  {"name": "coop", "path": "src/vrt, src/vharness, tools/instr", "serves_properties": [], "kind_free_text": "rapid-driven property tests on an AST-instrumented copy of the library under a deterministic cooperative scheduler (schedule = generated input)"},
